@@ -13,6 +13,7 @@ validated by TLC against the same actions (spec/Trace_Json.tla).
 """
 import datetime
 import io
+import common
 import json
 import math
 import os
@@ -539,8 +540,7 @@ def run(tier, replay=None):
     chunks = [(c, variants, 7 if tier == 'quick' else 3)
               for c in chunked(cases, NCPU * 4)]
     import multiprocessing
-    with multiprocessing.get_context('fork').Pool(NCPU) as pool:
-        parts = pool.map(_chunk, chunks)
+    parts = common.fork_map(_chunk, chunks)
     k = 0
     for (cs, _, _), part in zip(chunks, parts):
         for c, (errs, n) in zip(cs, part):
